@@ -386,7 +386,7 @@ impl Sys {
         p.log.clear();
         p.fail_at = fail_at;
     }
-    pub fn disarm(&self) -> (usize, Vec<String>) {
+    pub fn disarm(&self) -> (usize, Vec<serde_json::Value>) {
         let mut p = self.plan.borrow_mut();
         p.armed = false;
         p.fail_at = None;
